@@ -30,6 +30,8 @@ pub enum Case {
     Generated { db: SynDb, injections: Vec<Injection>, shuffle: Vec<u32> },
     Scale { kind: u8, n: u32 },
     Currency { tape: Vec<u32> },
+    /// a literal text (fuzzer artifact): loaded as definitions, date patterns and currency JSON
+    RawText(String),
 }
 
 #[derive(Clone, Debug, Serialize, Deserialize, PartialEq, Eq)]
@@ -524,6 +526,25 @@ pub fn check(env: &Env, c: &Case, st: &mut Stats) -> CaseResult {
             }
             Ok(())
         }
+        Case::RawText(text) => {
+            if crate::oracle::cost::has_huge_exponent(text) {
+                st.excluded("text contains a literal exponent above 5000");
+                return Ok(());
+            }
+            st.eval();
+            st.class("raw_text");
+            for cmd in [
+                json!({"cmd": "load_defs", "text": text, "fresh": true}),
+                json!({"cmd": "load_dates", "text": text}),
+                json!({"cmd": "load_currency", "json": text, "base": ""}),
+                json!({"cmd": "eval", "line": "1 + 1", "save_prev": false, "pinned": true}),
+            ] {
+                if call(env, st, &cmd, "loading a raw text")?.is_none() {
+                    return Ok(());
+                }
+            }
+            Ok(())
+        }
         Case::Currency { tape } => {
             let src = std::fs::read_to_string("/repo/core/tests/currency.snapshot.json").map_err(|e| format!("[infrastructure] {}", e))?;
             let js = mutate_json(&src, tape);
@@ -633,6 +654,32 @@ pub fn run(cx: &Cx) -> Report {
         |c| serde_json::to_value(c).unwrap(),
     ));
     rep.mark(cx, "scale");
+    if cx.tier == Tier::Thorough {
+        // artifacts of the `defs` libFuzzer campaign, replayed as definition files in the worker
+        let fz = verif_root().join("harness").join("fuzz");
+        let summary = std::fs::read_to_string(fz.join("last-defs.txt")).unwrap_or_else(|_| "no campaign ran".into());
+        rep.stats.note("fuzz_campaign", json!(summary.trim()));
+        let mut texts: Vec<String> = vec![];
+        if let Ok(rd) = std::fs::read_dir(fz.join("artifacts").join("defs")) {
+            let mut files: Vec<_> = rd.filter_map(|e| e.ok()).map(|e| e.path()).collect();
+            files.sort();
+            for f in files.into_iter().take(200) {
+                if let Ok(b) = std::fs::read(&f) {
+                    texts.push(String::from_utf8_lossy(&b).to_string());
+                }
+            }
+        }
+        rep.stats.note("fuzz_artifacts_replayed", json!(texts.len()));
+        let k = known.clone();
+        rep.absorb(par_sweep(
+            cx,
+            "fuzz-artifacts",
+            texts,
+            move || mk_env(k.clone()),
+            |env, text, st| check(env, &Case::RawText(text.clone()), st),
+            |text| json!({"RawText": text}),
+        ));
+    }
     let _ = regdump::numeric_text;
     rep
 }
